@@ -113,6 +113,12 @@ pub fn merge_stats(a: &mut RunStats, b: &RunStats) {
     a.restart_after_exit += b.restart_after_exit;
     a.forced_start += b.forced_start;
     a.clock_jumps += b.clock_jumps;
+    a.disk_fault_points += b.disk_fault_points;
+    a.fs_write_fault_scenarios += b.fs_write_fault_scenarios;
+    a.fs_write_faults_fired += b.fs_write_faults_fired;
+    for (k, v) in &b.disk_faults_applied {
+        *a.disk_faults_applied.entry(k.clone()).or_insert(0) += v;
+    }
     a.teardown_ops += b.teardown_ops;
     a.library_threads += b.library_threads;
     a.blocked_handoffs += b.blocked_handoffs;
@@ -278,17 +284,13 @@ pub fn sample_text(sc: &Scenario, decisions: &[u8]) -> String {
 // ---------------------------------------------------------------------------------------------
 // parent side
 
-/// Reference processes see an EMPTY, read-only temp directory: whatever a changed library might
-/// persist there, a history-free reference must not find it.
+/// Reference processes see an EMPTY temp directory: whatever a changed library might persist
+/// there, a history-free reference must not find it. (Every zygote makes a private sub-directory
+/// of this one and empties it after each child.)
 fn set_ref_tmpdir(work_dir: &str) {
     let d = format!("{}/tmp-ref", work_dir);
     let _ = std::fs::remove_dir_all(&d);
     let _ = std::fs::create_dir_all(&d);
-    #[cfg(unix)]
-    {
-        use std::os::unix::fs::PermissionsExt;
-        let _ = std::fs::set_permissions(&d, std::fs::Permissions::from_mode(0o555));
-    }
     crate::procs::set_global_child_env(vec![("TMPDIR".to_string(), d)]);
 }
 
@@ -837,6 +839,7 @@ fn world_file(g: &GenCtx, tables: &[Vec<u32>; 4], verif_seed: u64, w: u64) -> (R
         mode: format!("world_prologue:{}", variant),
         sched_salt: 0,
         pct_depth: 0,
+        fs_fault: 0,
     };
     // kind-balanced choice among the poison ops of the pool
     let poison_ops: Vec<u32> = (0..g.pool.ops.len() as u32).filter(|i| g.pool.ops[*i as usize].poison.is_some() && g.refs[*i as usize].status == "ok").collect();
@@ -860,7 +863,7 @@ fn world_file(g: &GenCtx, tables: &[Vec<u32>; 4], verif_seed: u64, w: u64) -> (R
         pro.expected.push(g.refs[ix].outcome.clone().unwrap());
         pro.foot.push(g.refs[ix].foot);
         pro.poison.push(None);
-        let step = crate::scenario::Step { op: k as u32, repeat: 1, rekey: None, clock_jump_ms: 0 };
+        let step = crate::scenario::Step { op: k as u32, repeat: 1, rekey: None, clock_jump_ms: 0, disk_fault: 0 };
         match variant {
             "one_thread_forced_order" => {
                 if pro.threads.is_empty() {
@@ -917,44 +920,7 @@ pub fn apply_disk_fault(tmp: &str, log: &str, verif_seed: u64, w: u64) -> (u64, 
         return (files.len() as u64, None);
     }
     let p = rng.pick(&files).clone();
-    let len = std::fs::metadata(&p).map(|m| m.len()).unwrap_or(0);
-    let kind = match rng.below(4) {
-        0 => {
-            // torn write: the file ends somewhere in the middle
-            if len > 1 {
-                if let Ok(fh) = std::fs::OpenOptions::new().write(true).open(&p) {
-                    let _ = fh.set_len(1 + rng.below(len - 1));
-                }
-            }
-            "fs_torn_write"
-        }
-        1 => {
-            let _ = std::fs::remove_file(&p);
-            "fs_lost_write"
-        }
-        2 => {
-            // the tail never reached the disk: right length, zeros at the end
-            if let Ok(mut bytes) = std::fs::read(&p) {
-                let n = bytes.len();
-                let k = (1 + rng.below(n.max(1) as u64)) as usize;
-                for x in bytes[n - k.min(n)..].iter_mut() {
-                    *x = 0;
-                }
-                let _ = std::fs::write(&p, bytes);
-            }
-            "fs_zeroed_tail"
-        }
-        _ => {
-            if let Ok(mut bytes) = std::fs::read(&p) {
-                if !bytes.is_empty() {
-                    let i = rng.below(bytes.len() as u64) as usize;
-                    bytes[i] ^= 1 << rng.below(8);
-                    let _ = std::fs::write(&p, bytes);
-                }
-            }
-            "fs_bit_flip"
-        }
-    };
+    let kind = crate::procs::damage_file(&p, &mut rng);
     (files.len() as u64, Some(kind))
 }
 
@@ -962,7 +928,14 @@ pub fn apply_disk_fault(tmp: &str, log: &str, verif_seed: u64, w: u64) -> (u64, 
 /// worlds in five - seeded write faults (short write, ENOSPC, EIO) on the files the library
 /// itself opens for writing.
 pub fn chain_env(tmp: &str, log: &str, verif_seed: u64, w: u64) -> Vec<(String, String)> {
-    let mut v = vec![("TMPDIR".to_string(), tmp.to_string()), ("A5SIM_FS_LOG".to_string(), log.to_string())];
+    let mut v = vec![
+        ("TMPDIR".to_string(), tmp.to_string()),
+        ("A5SIM_SHARED_TMP".to_string(), "1".to_string()),
+        ("A5SIM_FS_ROOT".to_string(), tmp.to_string()),
+        ("HOME".to_string(), format!("{}/home", tmp)),
+        ("XDG_CACHE_HOME".to_string(), format!("{}/home/.cache", tmp)),
+        ("A5SIM_FS_LOG".to_string(), log.to_string()),
+    ];
     let z = derive(verif_seed, 0x6677_0000 + w);
     if z % 5 < 2 {
         v.push(("A5SIM_FS_FAULT".to_string(), (z % 1_000_000 + 1).to_string()));
@@ -988,7 +961,7 @@ pub struct ChainFile {
 pub fn run_chain(c: &ChainFile, work_dir: &str) -> Option<(usize, Violation)> {
     let tmp = format!("{}/tmp-chainreplay-{}", work_dir, c.first_world);
     let _ = std::fs::remove_dir_all(&tmp);
-    let _ = std::fs::create_dir_all(&tmp);
+    let _ = std::fs::create_dir_all(format!("{}/home/.cache", tmp));
     let log = format!("{}/fslog-chainreplay-{}.txt", work_dir, c.first_world);
     let mut found = None;
     for (i, f) in c.worlds.iter().enumerate() {
@@ -1064,12 +1037,12 @@ pub fn worlds_main(b: &WorldArgs) -> WorldsOut {
                 }
                 let tmp = format!("{}/tmp-chain-{}", b.work_dir, c);
                 let _ = std::fs::remove_dir_all(&tmp);
-                let _ = std::fs::create_dir_all(&tmp);
+                let _ = std::fs::create_dir_all(format!("{}/home/.cache", tmp));
                 let log = format!("{}/fslog-{}.txt", b.work_dir, c);
                 for w in first..(first + CHAIN).min(b.worlds) {
                     let _ = std::fs::remove_file(&log);
                     let env = chain_env(&tmp, &log, b.verif_seed, w);
-                    if env.len() > 2 {
+                    if env.iter().any(|(k, _)| k == "A5SIM_FS_FAULT") {
                         *fs_stats.lock().unwrap().1.entry("worlds_with_write_faults(short write / ENOSPC / EIO on files the library opens)".to_string()).or_insert(0) += 1;
                     }
                     crate::procs::CHILD_ENV.with(|e| {
